@@ -88,3 +88,14 @@ pub fn cnf_dump(input: &Value) -> Value {
 		"certificates": certs,
 	}})
 }
+
+/// op c14_cnf_path: {"from": including file, "file": include string} -> {"ok": [paths]} | {"err": msg}
+/// The REAL (private) `get_cnf_path`, paths exactly as returned (not canonicalised), in the order returned.
+pub fn cnf_path(input: &Value) -> Value {
+	let from = PathBuf::from(input["from"].as_str().unwrap_or(""));
+	let file = input["file"].as_str().unwrap_or("");
+	match get_cnf_path(&from, file) {
+		Ok(v) => json!({"ok": v.iter().map(|p| p.to_string_lossy().to_string()).collect::<Vec<String>>()}),
+		Err(e) => json!({"err": e.message}),
+	}
+}
